@@ -280,6 +280,38 @@ MUTANTS = [
     ('C10', 'weak-references-dropped', CR,
      "def persistent_id(object):\n    if getattr(object, '__class__', 0) is not PersistentReference:\n        return None\n    return object.data",
      "def persistent_id(object):\n    if getattr(object, '__class__', 0) is not PersistentReference:\n        return None\n    return object.data if not object.weak else object.oid"),
+    ('C11', 'finish-keeps-objects-dirty', CN,
+     "                if obj is not None and obj._p_changed is not None:\n                    obj._p_changed = 0\n                    obj._p_serial = serial",
+     "                if obj is not None and obj._p_changed is not None:\n                    obj._p_serial = serial"),
+    ('C11', 'finish-wrong-serial', CN,
+     "                if obj is not None and obj._p_changed is not None:\n                    obj._p_changed = 0\n                    obj._p_serial = serial",
+     "                if obj is not None and obj._p_changed is not None:\n                    obj._p_changed = 0"),
+    ('C11', 'abort-keeps-modified-state', CN,
+     "                # reread is pretty low.\n\n                self._cache.invalidate(oid)",
+     "                # reread is pretty low.\n\n                pass"),
+    # (dropping the _added loop of tpc_abort is unobservable: abort()
+    # runs first for a connection that has not voted and empties _added)
+    ('C11', 'close-while-joined-allowed', CN,
+     "        if not self._needs_to_join:\n            # We're currently joined to a transaction.\n            raise ConnectionStateError(",
+     "        if False:\n            # We're currently joined to a transaction.\n            raise ConnectionStateError("),
+    ('C11', 'invalidate-creating-keeps-owner', CN,
+     "                if o._p_changed:\n                    o._p_changed = False\n                del o._p_jar\n                del o._p_oid\n\n    def tpc_vote",
+     "                if o._p_changed:\n                    o._p_changed = False\n\n    def tpc_vote"),
+    ('C12', 'rollback-keeps-created', CN,
+     "        # Invalidate objects created *after* the savepoint.\n        self._invalidate_creating(unadded)",
+     "        # Invalidate objects created *after* the savepoint.\n        pass"),
+    ('C12', 'rollback-does-not-reset-store', CN,
+     "        index = src.index\n        src.reset(*state)\n        self._cache.invalidate(index)",
+     "        index = src.index\n        self._cache.invalidate(index)"),
+    ('C12', 'rollback-keeps-cache', CN,
+     "        index = src.index\n        src.reset(*state)\n        self._cache.invalidate(index)",
+     "        index = src.index\n        src.reset(*state)"),
+    ('C12', 'reset-shares-index', CN,
+     "        self.index = index.copy()\n",
+     "        self.index = index\n"),
+    ('C12', 'abort-leaves-savepoint-store', CN,
+     "            self._abort(self._savepoint_storage.creating)\n            self._abort_savepoint()",
+     "            self._abort(self._savepoint_storage.creating)"),
 ]
 
 
